@@ -231,7 +231,7 @@ def c18(ctx):
                     "every pair is replayed on is_equal/is_equal_raw/is_prefix/is_suffix with value tables, 8x8 relative alignments and both operands abutting PROT_NONE pages; distinct = distinct pairs")
 
 
-SUBC = dict(HASHBITS=4, MASKBITS=4, PAIRCAP=4, MASKKIND="sensible", MIN_SKIPS=2, MIN_SKIP_BYTES=2, MODK=2,
+SUBC = dict(HASHBITS=4, MASKBITS=4, PAIRCAP=4, MASKKIND="sensible", MIN_SKIPS=2, MIN_SKIP_BYTES=2, CTRMAX=1000000, MulSaturates=True, MODK=2,
             RKFAST=4, ONESHOT=8, MAXP=3, VBS=2, MAXRANK=1)
 MM_INV = ["FindIsLeftmost", "RFindIsRightmost", "IterIsGreedy", "RevIterIsGreedy", "EmptyNeedleEveryOffset", "NoPanic",
           "LinearFind", "LinearIter", "EmitReplay"]
@@ -250,7 +250,7 @@ def sub(keys, **kw):
 
 K_PAIR = ["HASHBITS", "MASKBITS", "PAIRCAP"]
 K_PP = K_PAIR + ["MASKKIND"]
-K_TW = K_PP + ["MIN_SKIPS", "MIN_SKIP_BYTES", "MODK"]
+K_TW = K_PP + ["MIN_SKIPS", "MIN_SKIP_BYTES", "CTRMAX", "MulSaturates", "MODK"]
 K_MM = K_TW + ["RKFAST", "ONESHOT", "MAXP", "VBS", "MAXRANK"]
 
 
@@ -600,7 +600,28 @@ def c14(ctx):
     tw = [("tw", "MC_TwoWay", sub(K_TW, Alpha={0, 1}, MinN=1, MaxN=5, MaxH=8 if q else 10, Emit=False), TW_INV, 4)]
     mm = memmem_shards(ctx, ["find", "rfind", "iter", "riter"], 5, 6 if q else 8, ranks=(0, 2))
     os_ = oracle_shards(ctx)
-    res = run_shards(ctx, gs + ss + its + ps + ie + pr + tw + mm + os_, timeout=3000)
+    # the adaptive prefilter's u32 counters: every sequence of is_effective/update calls at a scaled counter width
+    pst = [("pstate", "MC_PrefilterState", sub(K_PP + ["MIN_SKIPS", "MIN_SKIP_BYTES", "MulSaturates"], CTRMAX=31, Skips={0, 1, 2, 3, 7, 16, 40, 100}), ["NoOverflow", "InRange", "InertIsAbsorbing"], 2)]
+    # ... and at the real width on the code: > 2^29 prefilter calls in ONE search with the prefilter staying effective
+    # (a ~5.4 GB haystack with candidates 10 bytes apart); found as a genuine defect (fixed, see known_findings.json)
+    stress = {}
+
+    def stress_job():
+        try:
+            avail = int([l for l in open("/proc/meminfo") if l.startswith("MemAvailable")][0].split()[1]) // (1 << 20)
+        except Exception:
+            avail = 0
+        if avail < 12:
+            stress["skipped"] = "less than 12 GB of memory available (%d GB)" % avail
+            return
+        p = subprocess.run(["timeout", "900", binp, "stress-prefilter-counter"], stdout=subprocess.PIPE, stderr=subprocess.STDOUT, text=True)
+        stress["out"] = p.stdout[-400:]
+        stress["rc"] = p.returncode
+
+    import threading
+    st_thread = threading.Thread(target=stress_job)
+    st_thread.start()
+    res = run_shards(ctx, gs + ss + its + ps + ie + pr + tw + mm + os_ + pst, timeout=3000)
     classes = {"panic"}
     gvec, gn = vec_of(ctx, res, gs, "generic.ndjson")
     svec, sn = vec_of(ctx, res, ss, "swar.ndjson")
@@ -618,6 +639,14 @@ def c14(ctx):
     replay_cmd(ctx, binp, "replay-iseq", res["ie"]["vec_path"], "iseq", classes)
     mm_replay(ctx, binp, mvec, "all", classes, 4 if q else 8)
     miri_vehicles(ctx, [gvec, svec, mvec], classes, [])
+    st_thread.join()
+    if "skipped" in stress:
+        ctx.vehicles_skipped.append({"vehicle": "prefilter counter stress (5.4 GB haystack)", "reason": stress["skipped"]})
+    elif "Err(" in stress.get("out", "") or stress.get("rc") not in (0,):
+        ctx.violation("stress:prefilter-counter", "Finder::find on a 5.4 GB haystack with more than 2^29 effective prefilter calls in one search did not return normally: %s" % stress.get("out", "")[-200:],
+                      {"command": "harness stress-prefilter-counter", "needle": "XYb" + "a" * 39, "haystack": "('XYaXaaaaaa' repeated 2^29 + 4096 times)"})
+    else:
+        ctx.add_counters({"prefilter_counter_stress_calls": (1 << 29) + 4096})
     ctx.evaluations += sum_exec(ctx, ["_exec"])
     return C.finish(ctx, "model_checking",
                     "model: every L-model carries an explicit `bad`/`panic` flag for index arithmetic that would underflow, slice indices out of range and failed (debug_)assertions; "
